@@ -43,12 +43,15 @@ VARIABLES model, dens, temp, ne, te, nb,
           flow,     \* beam models: do the plasma species move (per-species bulk velocities Vel) or rest
           mag,      \* every density (electrons, species, beam) is multiplied by 10^mag: the totals are homogeneous of degree 2
           prior     \* what the model object was bound to and evaluated with before the configuration under test:
-                    \* "none" (first use), "provider" (another atomic-data provider), "plasma" (another plasma)
+                    \* "none" (first use), "provider" (another atomic-data provider), "plasma" (another plasma),
+                    \* "point" (the same plasma, non-uniform, evaluated before at a point where every species has other positive
+                    \* densities and temperatures), "mutated" (the same plasma object held other distributions / another composition
+                    \* when the model was evaluated before; for beam models the beam geometry was changed in between)
 vars == <<model, dens, temp, ne, te, nb, prior, flow, mag>>
 MagExps == {0, -13, 9}          \* 1e10 m^-3 per unit: 2e-3 m^-3 ... 2e19 m^-3
 \* species temperatures pairwise distinct and distinct from T_e (3), so a coefficient evaluated at another species' temperature shows
 TempOf(s) == 3 + Idx(s)
-Priors == {"none", "provider", "plasma"}
+Priors == {"none", "provider", "plasma", "point", "mutated"}
 Absent == -9
 Present == {s \in Names : dens[s] # Absent}
 N(s) == dens[s]
